@@ -68,8 +68,15 @@ def make_trace_module(spec, variables, runs, extra_defs="", extends_extra="", us
                     pl = ', p |-> %s, lb |-> "%s"' % (st["proc"], st["label"])
                     kind = "a"
             else:
-                kind, ref, sts = st
+                # (kind, ref, state[, proc, label]); a jump ('j') carries no state: it returns to the state of record ref
+                kind, ref, sts = st[0], st[1], st[2]
                 ref = base + ref + 1
+                if kind == "j":
+                    recs.append('[k |-> "j", r |-> %d]' % ref)
+                    continue
+                if len(st) >= 5 and labels and st[4] in labels:
+                    pl = ', p |-> %s, lb |-> "%s"' % (st[3], st[4])
+                    kind = "a"
             recs.append('[k |-> "%s", r |-> %d, st |-> %s%s]' % (kind, ref, sts, pl))
     hs = (" /\\ " + hist_step) if hist_step else ""
     if not conform:
@@ -98,13 +105,13 @@ TraceInit == l = 1 /\\ %(init)s /\\ ZMatch(ZTrace[1].st)
 TraceStep == ZK("s") /\\ ZMatchP(ZTrace[l + 1].st) /\\ %(next)s%(hs)s
 %(act)s
 TraceReset == ZK("i") /\\ ZMatchP(ZTrace[l + 1].st) %(rx)s /\\ (%(init)s)'
-TraceJump == ZK("j") /\\ ZTrace[l + 1].r <= l /\\ ZTrace[ZTrace[l + 1].r].st = ZTrace[l + 1].st /\\ ZMatchP(ZTrace[l + 1].st)
+TraceJump == ZK("j") /\\ ZTrace[l + 1].r <= l /\\ ZMatchP(ZTrace[ZTrace[l + 1].r].st)%(hsj)s
 TraceNext == TraceStep \\/ TraceAct \\/ TraceReset \\/ TraceJump
 %(extra)s
 ====
 """ % {"spec": spec, "ext": extends_extra, "data": ",\n".join(recs), "match": match, "matchp": matchp,
        "extra": extra_defs, "next": use_next, "init": use_init, "rx": reset_extra, "act": act,
-       "hs": hs if not conform else ""}
+       "hs": hs if not conform else "", "hsj": ""}
 
 
 def make_cfg(constants, invariants, properties=(), action_constraints=()):
@@ -144,7 +151,9 @@ def validate_runs(specdir, spec, variables, runs, constants, invariants, propert
     if not idx:
         return out
     cfgtext = make_cfg(constants, invariants, properties)
-    chunks = max(1, min(chunks, len(idx)))
+    # every chunk is one TLC process (JVM start + parsing the spec): use several only when there is enough to validate
+    total_bytes = sum(len(x if isinstance(x, str) else str(x)) for i in idx for x in runs[i])
+    chunks = max(1, min(chunks, len(idx), 1 + total_bytes // 1500000))
     parts = [idx[i::chunks] for i in range(chunks)]
 
     def work(part):
@@ -171,6 +180,7 @@ def validate_runs(specdir, spec, variables, runs, constants, invariants, propert
                 kind = "stuck"
             else:
                 acc += len(part)
+                part = []   # all consumed (otherwise an acceptance in the last allowed round is reported as "runs left unchecked")
                 break
             n = 0
             hit = len(part) - 1
@@ -331,3 +341,79 @@ def simulate_behaviours(workdir, module, cfg, num, depth, seed, timeout=600, pre
     for f in sorted(os.listdir(d)):
         behs.append(parse_tlc_states(open(os.path.join(d, f)).read()))
     return res, behs
+
+
+# --------------------------------------------------------------------------- walks with successor fan-out (diff-encoded)
+# sysdrv -policy walk-<p> writes a walk of the fresh-context executor: "step" lines (full state + the
+# variables the step changed, "d") and "succ" lines (another committed successor of the state at step
+# index "run": changed variables "d", their previous values "u"). Only the first state of a piece is
+# embedded in full; every other record carries the changed variables only, and a successor is followed
+# by an undo record that restores them, so tens of thousands of edges fit into one TLC run.
+
+def _rec_text(d):
+    return "[" + ", ".join("%s |-> %s" % (k, v) for k, v in sorted(d.items())) + "]" if d else "[zznone |-> 0]"
+
+
+def make_walk_module(spec, variables, recs, labels, require_init):
+    """recs: list of dicts: {"k": "i", "st": text} | {"k": "a"/"s", "p": proc, "lb": label, "d": {var: text}} | {"k": "u", "d": {...}}"""
+    out = []
+    for r in recs:
+        if r["k"] == "i":
+            out.append('[k |-> "i", st |-> %s]' % r["st"])
+        elif r["k"] == "u":
+            out.append('[k |-> "u", d |-> %s]' % _rec_text(r["d"]))
+        elif r.get("lb") in labels and r.get("p") not in (None, ""):
+            out.append('[k |-> "a", p |-> %s, lb |-> "%s", d |-> %s]' % (r["p"], r["lb"], _rec_text(r["d"])))
+        else:
+            out.append('[k |-> "s", d |-> %s]' % _rec_text(r["d"]))
+    match = " /\\ ".join("%s = zst.%s" % (v, v) for v in variables)
+    apply_ = " /\\ ".join('%s\' = (IF "%s" \\in DOMAIN zd THEN zd.%s ELSE %s)' % (v, v, v, v) for v in variables)
+    act = "ZAct(zp, zl) ==\n" + ("\n".join('    \\/ (zl = "%s" /\\ %s(zp))' % (lb, lb) for lb in labels) if labels else "    FALSE")
+    return """---- MODULE %(spec)sWalk ----
+EXTENDS %(spec)s
+VARIABLE l
+zTraceVars == <<vars, l>>
+ZTrace == <<
+%(data)s
+>>
+ZMatch(zst) == %(match)s
+ZApply(zd) == %(apply)s
+ZK(zk) == l < Len(ZTrace) /\\ ZTrace[l + 1].k = zk /\\ l' = l + 1
+TraceInit == l = 1 /\\ ZMatch(ZTrace[1].st)%(init)s
+%(act)s
+TraceAct == ZK("a") /\\ ZApply(ZTrace[l + 1].d) /\\ ZAct(ZTrace[l + 1].p, ZTrace[l + 1].lb)
+TraceStep == ZK("s") /\\ ZApply(ZTrace[l + 1].d) /\\ Next
+TraceUndo == ZK("u") /\\ ZApply(ZTrace[l + 1].d)
+TraceNext == TraceAct \\/ TraceStep \\/ TraceUndo
+====
+""" % {"spec": spec, "data": ",\n".join(out), "match": match, "apply": apply_, "act": act,
+       "init": " /\\ Init" if require_init else ""}
+
+
+def validate_walk_pieces(specdir, spec, variables, pieces, constants, labels, timeout=1800, par=8):
+    """pieces: list of dict(recs=[...], init=bool). Each piece is one TLC job. Returns list of results
+    dict(ok, stuck_at (0-based record index or None), states, generated, error)."""
+    cfgtext = "INIT TraceInit\nNEXT TraceNext\nCHECK_DEADLOCK FALSE\nCONSTANTS\n" + "".join("  %s = %s\n" % kv for kv in constants.items())
+
+    def work(pc):
+        w = tempfile.mkdtemp(prefix="wk.", dir=os.path.dirname(specdir))
+        V.copy_specs(specdir, w)
+        with open(os.path.join(w, spec + "Walk.tla"), "w") as f:
+            f.write(make_walk_module(spec, variables, pc["recs"], labels, pc.get("init", False)))
+        with open(os.path.join(w, spec + "Walk.cfg"), "w") as f:
+            f.write(cfgtext)
+        res = V.tlc(w, spec + "Walk", cfg=spec + "Walk.cfg", workers=1, timeout=timeout, deadlock=False)
+        shutil.rmtree(w, ignore_errors=True)
+        r = {"ok": False, "stuck_at": None, "states": res.distinct, "generated": res.generated, "error": None}
+        if res.timed_out or res.error:
+            r["error"] = (res.error or "timeout") + " :: " + res.out[-1200:]
+        elif res.violation:
+            r["error"] = "unexpected violation: " + res.violation
+        elif res.depth < len(pc["recs"]):
+            r["stuck_at"] = res.depth  # 0-based index of the record that could not be taken
+        else:
+            r["ok"] = True
+        return r
+
+    with concurrent.futures.ThreadPoolExecutor(max_workers=max(1, min(par, len(pieces)))) as ex:
+        return list(ex.map(work, pieces))
